@@ -357,15 +357,19 @@ class HashClient:
     def get(self, key, default=None, **kwargs):
         return self._run_cmd("get", key, default, default=default, **kwargs)
 
-    def gat(self, key, default=None, **kwargs):
-        return self._run_cmd("gat", key, default, default=default, **kwargs)
+    # Same positional order as Client.gat / Client.gats: expire comes first.
+    def gat(self, key, expire=0, default=None, **kwargs):
+        return self._run_cmd(
+            "gat", key, default, expire=expire, default=default, **kwargs
+        )
 
-    def gats(self, key, default=None, cas_default=None, **kwargs):
+    def gats(self, key, expire=0, default=None, cas_default=None, **kwargs):
         # A miss is the pair (default, cas_default); so is a swallowed failure.
         return self._run_cmd(
             "gats",
             key,
             (default, cas_default),
+            expire=expire,
             default=default,
             cas_default=cas_default,
             **kwargs,
